@@ -21,5 +21,12 @@ func init() {
 		{Pkg: tp, Func: "validateRegistryScopes", NonNil: true},
 		{Pkg: tp, Func: "(*OCIDocument).Validate", NilableRecv: true},
 		{Pkg: tp, Func: "(*BlobDocument).Validate", NilableRecv: true},
+		// Not listed (tried, refused by the translator; docs/audit/C09.md, section GoLite):
+		//   verifier.NewVerifierWithOptions - the forced validation at construction starts with `trustStore == nil`
+		//   on an interface value (verifier/verifier.go:150); as a refused row it would also pull ~250 lines of
+		//   crypto/x509 records into C09_Gen.v (the row is kept, with the same reason, in targets_c12.go).
+		//   verifier.New / NewWithOptions - take a plugin.Manager (multi-method interface, verifier/verifier.go:139,
+		//   192) and only forward to NewVerifierWithOptions.
+		// The constructors stay tied by the correspondence family `constructors` of vh-c09 (C09_Model.construct).
 	})
 }
